@@ -336,6 +336,32 @@ func (g *Gen) derive(p Prop, old any) (any, any, bool) {
 		s := strings.Join(out, " ")
 		tf, k := Analyse(s)
 		return s, map[string]any{"tf": tf, "len": k}, true
+	case models.IndexTypeVectorFlat, models.IndexTypeVectorVamana:
+		// a vector related to the stored one: the same again, its negation, or one orthogonal to it
+		// (dot product 0, i.e. "distance" 0 under the dot metric although the vector changed)
+		o, ok := old.([]float32)
+		if !ok || len(o) < 2 || (p.Metric != models.DistanceEuclidean && p.Metric != models.DistanceDot) {
+			return nil, nil, false
+		}
+		rv := make([]float32, len(o))
+		switch g.R.Intn(4) {
+		case 0:
+			copy(rv, o)
+		case 1:
+			for i := range o {
+				rv[i] = -o[i]
+			}
+		default:
+			rv[0], rv[1] = -o[1], o[0]
+		}
+		av := make([]int, len(o))
+		for i := range rv {
+			if rv[i] == 0 {
+				rv[i] = 0 // (no negative zero)
+			}
+			av[i] = int(rv[i])
+		}
+		return rv, av, true
 	case models.IndexTypeString:
 		o, ok := old.(string)
 		if !ok {
@@ -419,7 +445,7 @@ func (g *Gen) DocFrom(forUpdate bool, pInc float64, cur map[string]any) GenDoc {
 			}
 			if g.R.Float64() < pi {
 				rv, av := g.propValue(props[0])
-				if old, ok := cur[props[0].Name]; ok && g.R.Intn(3) == 0 {
+				if old, ok := cur[props[0].Name]; ok && (g.R.Intn(3) == 0 || (props[0].IsVector() && g.R.Intn(2) == 0)) {
 					if dr, da, ok := g.derive(props[0], old); ok {
 						rv, av = dr, da
 					}
